@@ -38,7 +38,7 @@ StartOf(t) == /\ g = GraphOf(t) /\ entries = S(Traces[t].entries) /\ mode = Trac
               /\ phase = "validate" /\ reach = {} /\ rank = <<>> /\ up = {} /\ rankUp = <<>> /\ step = 0
 ResetFor(t) == /\ g' = GraphOf(t) /\ entries' = S(Traces[t].entries) /\ mode' = Traces[t].mode
                /\ phase' = "validate" /\ reach' = {} /\ rank' = <<>> /\ up' = {} /\ rankUp' = <<>> /\ step' = 0
-TInit == /\ tid = 1 /\ l = 1 /\ seen = {} /\ called = {} /\ TLCSet(1, 0) /\ TLCSet(2, <<0, 0>>) /\ TLCSet(3, <<>>)
+TInit == /\ tid = 1 /\ l = 1 /\ seen = {} /\ called = {} /\ TLCSet(1, 0) /\ TLCSet(2, <<0, 0>>) /\ TLCSet(3, <<>>) /\ TLCSet(4, <<0, 0>>)
          /\ StartOf(1)
 
 AtEvent(e) == tid <= N /\ l <= Len(Ev) /\ Ev[l].ev = e
@@ -47,7 +47,7 @@ NextTraceState == /\ tid' = tid + 1 /\ l' = 1 /\ seen' = {} /\ called' = {}
                   /\ IF tid + 1 <= N THEN ResetFor(tid + 1) ELSE UNCHANGED vars
 \* Verdicts are total in ONE run: an event whose verdict predicate is false is recorded in register 3 as <<tid, l>> and the
 \* batch continues with the next trace.  Register 1 keeps the PagerTrace meaning: number of traces accepted before the
-\* first rejection (so  TLCGet(1) = N  iff every trace was accepted).
+\* first rejection (so  TLCGet(1) = N  iff every trace was accepted); harness/tlc.validate_all works unchanged.
 Reject == TLCSet(3, Append(TLCGet(3), <<tid, l>>)) /\ NextTraceState
 Accept == TLCSet(1, IF TLCGet(3) = <<>> THEN tid ELSE TLCGet(1)) /\ NextTraceState
 \* an observation made on the finished library: judged once the traversal of the specification has terminated
@@ -86,7 +86,10 @@ TNextTrace == /\ tid <= N /\ l = Len(Ev) + 1 /\ phase \notin {"reach", "up"}
               /\ IF phase = "failed" \/ (phase = "done" /\ called = KeptRpcs \cap FullSync) THEN Accept ELSE Reject
 TNext == TValidate \/ TStep \/ TSelective \/ TBuilt \/ TTypes \/ TRpcs \/ TClients \/ TUsable \/ TCall \/ TNextTrace
 TSpec == TInit /\ [][TNext]_tvars
-Progress == TLCSet(2, <<tid, l>>)          \* CONSTRAINT: remembers how far the batch got (workers 1)
+\* CONSTRAINT (workers 1): register 2 = how far the batch got before the first rejection (PagerTrace meaning),
+\* register 4 = how far it got at all
+Progress == TLCSet(4, <<tid, l>>) /\ TLCSet(2, IF TLCGet(3) = <<>> THEN <<tid, l>> ELSE TLCGet(2))
 Accepted == /\ PrintT(<<"ACCEPTED", TLCGet(1)>>) /\ PrintT(<<"REACHED", TLCGet(2)>>) /\ PrintT(<<"REJECTED", TLCGet(3)>>)
+            /\ PrintT(<<"PROGRESS", TLCGet(4)>>)
             /\ TLCGet(1) = N
 =============================================================================
